@@ -501,7 +501,7 @@ fn ranges_and_outputs(ws: &verif::WireSignals, blocks: &[(usize, usize)]) -> Res
 ///  scaling:  every sample of the ring * 2^k: every output * 2^k exactly (Cholesky solve included);
 ///  identity: output column j comes from input column j: signals synthesised from one avalanche (k_j, a_j) per
 ///            wire, all different, induced on the neighbours with the factors of wires.rs; output channel j must
-///            show a_j at k_j and nothing elsewhere (tolerance 1e-9 of the largest amplitude of the block)
+///            show a_j at k_j and nothing elsewhere (tolerance 1e-11 of the largest amplitude of the block)
 fn rel_block(seed: u64, blocks: &[(usize, usize)]) -> Result<(), String> {
     if blocks.is_empty() || !blocks_valid(blocks) {
         return Err("bad case".into());
@@ -578,7 +578,9 @@ fn rel_block(seed: u64, blocks: &[(usize, usize)]) -> Result<(), String> {
     }
     Ok(())
 }
-const BLOCK_IDENTITY_TOL: f64 = 1e-9;
+/// measured: every deviation below 1e-14 of the largest amplitude of the block (114 blocks of the quick tier hold
+/// at 1e-14, 100 of them fail at 1e-16); three orders of margin
+const BLOCK_IDENTITY_TOL: f64 = 1e-11;
 
 // ---------------------------------------------------------------------------------------------
 // event level: MainEvent::avalanches() under multiplication of EVERY calibrated sample by 2^k
